@@ -14,7 +14,7 @@ PROP = "C20"
 
 TIERS = {
     # runs: number of seeds; budget_s: wall guard (no new run is issued after it)
-    "quick": {"runs": 3000, "budget_s": 170},
+    "quick": {"runs": 3000, "budget_s": 120},
     "thorough": {"runs": 120000, "budget_s": 1500},
 }
 
